@@ -168,7 +168,9 @@ let handle kind c =
         end;
         if !cur != prev then begin
           check_obs where !cur;
-          if not dmg && not (monotone_ok prev.io !cur.io) then
+          if not dmg && N.ltb !cur.io.o_size prev.io.o_size then
+            prop1 "size-decreased" (Printf.sprintf "%s: the file became shorter (%s -> %s bytes): a page that another process may have added and mapped was cut off" where (hex_of_n prev.io.o_size) (hex_of_n !cur.io.o_size))
+          else if not dmg && not (monotone_ok prev.io !cur.io) then
             prop1 "monotone-bounded" (Printf.sprintf "%s: a value, the limit or the size decreased: before %s after %s" where (show_obs prev.io) (show_obs !cur.io))
         end;
         check_bounds where !cur
@@ -230,6 +232,7 @@ let handle kind c =
     (match status with
      | "hang" -> prop1 "hang" "a surviving call did not return within the step budget"
      | "panic" -> prop1 "panic" "a call panicked"
+     | "shrunk" -> prop1 "size-decreased" "the file became shorter (scenario stopped there)"
      | _ -> ());
     if nuse > 0 then prop1 "use-after-unmap" (Printf.sprintf "%d accesses through a closed mapping" nuse)
   | k -> diff "unknown-case-kind" ~model:k ~impl:"-"
